@@ -231,6 +231,9 @@ Proof. intros. exact (locate_aligned 64 nc off k H H0 H1 H2). Qed.
 Lemma num_peaks_at n : num_peaks n = popcount_at 64 n.
 Proof. reflexivity. Qed.
 
+Lemma locate_at64 n i : locate n i = locate_at 64 n i.
+Proof. reflexivity. Qed.
+
 Opaque locate num_peaks.
 
 Lemma len_u32_some {D : Type} (l : list D) : zlen l < 2 ^ 32 -> len_u32 l = Some (zlen l).
@@ -520,3 +523,458 @@ Proof.
   rewrite (len_u32_some (snd old) Hl). cbn [obind].
   rewrite Hc. rewrite Z.eqb_refl. reflexivity.
 Qed.
+
+(* ------------------------------------------------------------------------------------------ lists *)
+Lemma pw_spec (k : nat) : Z.of_nat (pw k) = 2 ^ Z.of_nat k.
+Proof. unfold pw. rewrite Z2Nat.id; [reflexivity|]. pose proof (p2_nat_pos k). lia. Qed.
+
+Lemma zlength_app {A : Type} (a b : list A) : zlength (a ++ b) = zlength a + zlength b.
+Proof. unfold zlength. rewrite app_length. lia. Qed.
+Lemma zlength_nonneg {A : Type} (a : list A) : 0 <= zlength a.
+Proof. unfold zlength. lia. Qed.
+Lemma zlength_firstn {A : Type} (k : nat) (l : list A) : 2 ^ Z.of_nat k <= zlength l ->
+  zlength (firstn (pw k) l) = 2 ^ Z.of_nat k.
+Proof. intros Hl. unfold zlength in *. rewrite firstn_length. pose proof (pw_spec k). lia. Qed.
+Lemma zlength_skipn {A : Type} (k : nat) (l : list A) : 2 ^ Z.of_nat k <= zlength l ->
+  zlength (skipn (pw k) l) = zlength l - 2 ^ Z.of_nat k.
+Proof. intros Hl. unfold zlength in *. rewrite skipn_length. pose proof (pw_spec k). lia. Qed.
+Lemma firstn_app_l {A : Type} (k : nat) (l m : list A) : 2 ^ Z.of_nat k <= zlength l ->
+  firstn (pw k) (l ++ m) = firstn (pw k) l.
+Proof.
+  intros Hl. rewrite firstn_app. unfold zlength in Hl. pose proof (pw_spec k).
+  replace (pw k - length l)%nat with 0%nat by lia. cbn [firstn]. apply app_nil_r.
+Qed.
+Lemma skipn_app_l {A : Type} (k : nat) (l m : list A) : 2 ^ Z.of_nat k <= zlength l ->
+  skipn (pw k) (l ++ m) = skipn (pw k) l ++ m.
+Proof.
+  intros Hl. rewrite skipn_app. unfold zlength in Hl. pose proof (pw_spec k).
+  replace (pw k - length l)%nat with 0%nat by lia. reflexivity.
+Qed.
+Lemma firstn_all_eq {A : Type} (k : nat) (l : list A) : zlength l = 2 ^ Z.of_nat k -> firstn (pw k) l = l.
+Proof. intros Hl. apply firstn_all2. unfold zlength in Hl. pose proof (pw_spec k). lia. Qed.
+Lemma skipn_all_eq {A : Type} (k : nat) (l : list A) : zlength l = 2 ^ Z.of_nat k -> skipn (pw k) l = [].
+Proof. intros Hl. apply skipn_all2. unfold zlength in Hl. pose proof (pw_spec k). lia. Qed.
+
+(* ------------------------------------------------------------------------------------------ append *)
+Section Append.
+Variable D : Type.
+Variable H : D -> D -> D.
+Variable dflt : D.
+
+Notation root := (root D H dflt).
+Notation peaks_at := (peaks_at D H dflt).
+Notation path_at := (path_at D H dflt).
+Notation tree_path := (tree_path D H dflt).
+Notation append_loop := (append_loop D H).
+
+Lemma append_loop_eq t top rest :
+  append_loop t top rest =
+  if t =? 0 then Some (top :: rest, [])
+  else match rest with
+       | [] => None
+       | prev :: rest' =>
+         match append_loop (t - 1) (H prev top) rest' with
+         | Some (st, ap) => Some (st, prev :: ap)
+         | None => None
+         end
+       end.
+Proof. destruct rest; reflexivity. Qed.
+
+Lemma append_loop_app_r : forall s t top st ap x,
+  append_loop t top s = Some (st, ap) -> append_loop t top (s ++ x) = Some (st ++ x, ap).
+Proof.
+  induction s as [|prev s IH]; intros t top st ap x Hs; rewrite append_loop_eq in Hs; rewrite append_loop_eq.
+  - destruct (t =? 0); [|discriminate]. inversion Hs; subst. reflexivity.
+  - destruct (t =? 0).
+    + inversion Hs; subst. reflexivity.
+    + cbn [app]. destruct (append_loop (t - 1) (H prev top) s) as [[st' ap']|] eqn:E; [|discriminate].
+      inversion Hs; subst. rewrite (IH _ _ _ _ x E). reflexivity.
+Qed.
+
+Lemma append_loop_split : forall s t1 top r s' ap1 t2 x, 0 <= t1 -> 0 <= t2 ->
+  append_loop t1 top s = Some (r :: s', ap1) ->
+  append_loop (t1 + t2) top (s ++ x) =
+  match append_loop t2 r (s' ++ x) with Some (st, ap2) => Some (st, ap1 ++ ap2) | None => None end.
+Proof.
+  induction s as [|prev s IH]; intros t1 top r s' ap1 t2 x H1 H2 Hs; rewrite append_loop_eq in Hs.
+  - destruct (Z.eqb_spec t1 0) as [->|]; [|discriminate]. inversion Hs; subst.
+    cbn [Z.add app]. destruct (append_loop t2 r x) as [[st ap2]|]; reflexivity.
+  - destruct (Z.eqb_spec t1 0) as [->|Hne].
+    + inversion Hs; subst. cbn [Z.add].
+      match goal with |- _ = match ?X with _ => _ end => destruct X as [[? ?]|] end; reflexivity.
+    + destruct (append_loop (t1 - 1) (H prev top) s) as [[st' ap']|] eqn:E; [|discriminate].
+      inversion Hs; subst.
+      rewrite append_loop_eq. destruct (Z.eqb_spec (t1 + t2) 0) as [Hz|Hz]; [exfalso; clear - Hz H1 H2 Hne; lia|]. cbn [app].
+      replace (t1 + t2 - 1) with ((t1 - 1) + t2) by lia.
+      rewrite (IH (t1 - 1) _ _ _ _ t2 x ltac:(lia) H2 E).
+      destruct (append_loop t2 r (s' ++ x)) as [[st ap2]|]; reflexivity.
+Qed.
+
+Lemma peaks_at_nil (k : nat) : peaks_at k [] = [].
+Proof.
+  induction k as [|k IH]; [reflexivity|]. cbn [peaks_at]. pose proof (p2_nat_pos k).
+  change (zlength (@nil D)) with 0. destruct (Z.leb_spec (2 ^ Z.of_nat k) 0); [lia|exact IH].
+Qed.
+
+(* all bit positions below k set: the merge loop folds everything into one tree *)
+Lemma append_all_ones (k : nat) : forall ls d, zlength ls = 2 ^ Z.of_nat k - 1 ->
+  append_loop (Z.of_nat k) d (rev (peaks_at k ls)) =
+  Some ([root k (ls ++ [d])], tree_path k (ls ++ [d]) (2 ^ Z.of_nat k - 1)).
+Proof.
+  induction k as [|k IH]; intros ls d Hl.
+  - change (2 ^ Z.of_nat 0) with 1 in Hl. destruct ls; [|unfold zlength in Hl; cbn [length] in Hl; lia]. reflexivity.
+  - rewrite p2_S in *. pose proof (p2_nat_pos k) as Hp.
+    cbn [peaks_at root tree_path].
+    destruct (Z.leb_spec (2 ^ Z.of_nat k) (zlength ls)); [|lia].
+    destruct (Z.ltb_spec (2 * 2 ^ Z.of_nat k - 1) (2 ^ Z.of_nat k)); [lia|].
+    rewrite firstn_app_l, skipn_app_l by lia.
+    cbn [rev]. rewrite Nat2Z.inj_succ. unfold Z.succ.
+    assert (Hl2 : zlength (skipn (pw k) ls) = 2 ^ Z.of_nat k - 1) by (rewrite zlength_skipn; lia).
+    rewrite (append_loop_split _ (Z.of_nat k) _ _ _ _ 1 _ ltac:(lia) ltac:(lia) (IH _ d Hl2)).
+    cbn [app]. rewrite append_loop_eq. cbn [Z.eqb]. rewrite append_loop_eq. cbn [Z.sub Z.eqb Z.add Z.opp Z.pos_sub].
+    replace (2 * 2 ^ Z.of_nat k - 1 - 2 ^ Z.of_nat k) with (2 ^ Z.of_nat k - 1) by lia.
+    reflexivity.
+Qed.
+
+Lemma append_general (k : nat) : forall ls d, zlength ls < 2 ^ Z.of_nat k - 1 ->
+  append_loop (tz (zlength ls + 1)) d (rev (peaks_at k ls)) =
+  Some (rev (peaks_at k (ls ++ [d])), path_at k (ls ++ [d]) (zlength ls)).
+Proof.
+  induction k as [|k IH]; intros ls d Hl.
+  - change (2 ^ Z.of_nat 0) with 1 in Hl. pose proof (zlength_nonneg ls). lia.
+  - rewrite p2_S in *. pose proof (p2_nat_pos k) as Hp. pose proof (zlength_nonneg ls) as Hz.
+    cbn [peaks_at path_at]. rewrite zlength_app. change (zlength [d]) with 1.
+    destruct (Z.leb_spec (2 ^ Z.of_nat k) (zlength ls)) as [Hge|Hlt].
+    + destruct (Z.leb_spec (2 ^ Z.of_nat k) (zlength ls + 1)); [|lia].
+      destruct (Z.ltb_spec (zlength ls) (2 ^ Z.of_nat k)); [lia|].
+      rewrite firstn_app_l, skipn_app_l by lia.
+      cbn [rev].
+      assert (Hl2 : zlength (skipn (pw k) ls) < 2 ^ Z.of_nat k - 1) by (rewrite zlength_skipn; lia).
+      specialize (IH _ d Hl2). rewrite zlength_skipn in IH by lia.
+      replace (zlength ls + 1) with (2 ^ Z.of_nat k + (zlength ls - 2 ^ Z.of_nat k + 1)) by lia.
+      rewrite tz_pow2_add by lia.
+      apply append_loop_app_r. exact IH.
+    + destruct (Z.eq_dec (zlength ls) (2 ^ Z.of_nat k - 1)) as [Heq|Hne].
+      * destruct (Z.leb_spec (2 ^ Z.of_nat k) (zlength ls + 1)); [|lia].
+        destruct (Z.ltb_spec (zlength ls) (2 ^ Z.of_nat k)); [|lia].
+        assert (Hfull : zlength (ls ++ [d]) = 2 ^ Z.of_nat k) by (rewrite zlength_app; change (zlength [d]) with 1; lia).
+        rewrite firstn_all_eq, skipn_all_eq by exact Hfull.
+        rewrite peaks_at_nil. cbn [rev app].
+        replace (zlength ls + 1) with (2 ^ Z.of_nat k) by lia. rewrite tz_pow2.
+        rewrite (append_all_ones k ls d Heq). rewrite Heq. reflexivity.
+      * destruct (Z.leb_spec (2 ^ Z.of_nat k) (zlength ls + 1)); [lia|].
+        apply IH. lia.
+Qed.
+
+Theorem append_spec ls d : zlength ls + 1 < 2 ^ 64 ->
+  calculate_new_peaks_from_append D H (zlength ls) (peaks_spec D H dflt ls) d =
+  Some (peaks_spec D H dflt (ls ++ [d]), path D H dflt (ls ++ [d]) (zlength ls)).
+Proof.
+  intros Hl. unfold calculate_new_peaks_from_append.
+  rewrite rll_leaf_spec by (pose proof (zlength_nonneg ls); lia). cbn [obind].
+  unfold peaks_spec, path.
+  rewrite (append_general 64 ls d) by (change (Z.of_nat 64) with 64; lia). cbn [obind].
+  rewrite rev_involutive. reflexivity.
+Qed.
+
+End Append.
+
+(* ------------------------------------------------------------------------------------------ folding up a path *)
+Lemma upd_nat_length {A : Type} : forall (l : list A) n x, length (upd_nat l n x) = length l.
+Proof. induction l as [|y l IH]; intros [|n] x; cbn [upd_nat length]; try reflexivity. rewrite IH. reflexivity. Qed.
+Lemma zlength_upd {A : Type} (l : list A) i x : zlength (upd l i x) = zlength l.
+Proof. unfold zlength, upd. rewrite upd_nat_length. reflexivity. Qed.
+Lemma upd_nat_firstn_lt {A : Type} : forall (p n : nat) (l : list A) x, (n < p)%nat ->
+  firstn p (upd_nat l n x) = upd_nat (firstn p l) n x.
+Proof.
+  induction p as [|p IH]; intros n l x Hn; [lia|].
+  destruct l as [|y l]; [reflexivity|]. destruct n as [|n]; [reflexivity|].
+  cbn [upd_nat firstn]. rewrite IH by lia. reflexivity.
+Qed.
+Lemma upd_nat_skipn_lt {A : Type} : forall (p n : nat) (l : list A) x, (n < p)%nat ->
+  skipn p (upd_nat l n x) = skipn p l.
+Proof.
+  induction p as [|p IH]; intros n l x Hn; [lia|].
+  destruct l as [|y l]; [reflexivity|]. destruct n as [|n]; [reflexivity|].
+  cbn [upd_nat skipn]. apply IH. lia.
+Qed.
+Lemma upd_nat_firstn_ge {A : Type} : forall (p n : nat) (l : list A) x, (p <= n)%nat ->
+  firstn p (upd_nat l n x) = firstn p l.
+Proof.
+  induction p as [|p IH]; intros n l x Hn; [reflexivity|].
+  destruct l as [|y l]; [reflexivity|]. destruct n as [|n]; [lia|].
+  cbn [upd_nat firstn]. rewrite IH by lia. reflexivity.
+Qed.
+Lemma upd_nat_skipn_ge {A : Type} : forall (p n : nat) (l : list A) x, (p <= n)%nat ->
+  skipn p (upd_nat l n x) = upd_nat (skipn p l) (n - p) x.
+Proof.
+  induction p as [|p IH]; intros n l x Hn.
+  - cbn [skipn]. rewrite Nat.sub_0_r. reflexivity.
+  - destruct l as [|y l]; [reflexivity|]. destruct n as [|n]; [lia|].
+    cbn [upd_nat skipn]. rewrite IH by lia. reflexivity.
+Qed.
+
+Lemma upd_firstn_lt {A : Type} (k : nat) (l : list A) j x : 0 <= j < 2 ^ Z.of_nat k ->
+  firstn (pw k) (upd l j x) = upd (firstn (pw k) l) j x.
+Proof. intros. unfold upd. apply upd_nat_firstn_lt. pose proof (pw_spec k). lia. Qed.
+Lemma upd_skipn_lt {A : Type} (k : nat) (l : list A) j x : 0 <= j < 2 ^ Z.of_nat k ->
+  skipn (pw k) (upd l j x) = skipn (pw k) l.
+Proof. intros. unfold upd. apply upd_nat_skipn_lt. pose proof (pw_spec k). lia. Qed.
+Lemma upd_firstn_ge {A : Type} (k : nat) (l : list A) j x : 2 ^ Z.of_nat k <= j ->
+  firstn (pw k) (upd l j x) = firstn (pw k) l.
+Proof. intros. unfold upd. apply upd_nat_firstn_ge. pose proof (pw_spec k). lia. Qed.
+Lemma upd_skipn_ge {A : Type} (k : nat) (l : list A) j x : 2 ^ Z.of_nat k <= j ->
+  skipn (pw k) (upd l j x) = upd (skipn (pw k) l) (j - 2 ^ Z.of_nat k) x.
+Proof.
+  intros. unfold upd. rewrite upd_nat_skipn_ge by (pose proof (pw_spec k); lia).
+  f_equal. pose proof (pw_spec k). lia.
+Qed.
+
+Section Fold.
+Variable D : Type.
+Variable H : D -> D -> D.
+Variable dflt : D.
+
+Notation root := (root D H dflt).
+Notation tree_path := (tree_path D H dflt).
+Notation fold_up := (fold_up D H).
+
+Lemma fold_up_app : forall p q j x,
+  fold_up j x (p ++ q) = fold_up (j / 2 ^ zlength p) (fold_up j x p) q.
+Proof.
+  induction p as [|s p IH]; intros q j x.
+  - cbn [app fold_up]. change (zlength (@nil D)) with 0. rewrite Z.pow_0_r, Z.div_1_r. reflexivity.
+  - cbn [app fold_up]. rewrite IH. f_equal.
+    replace (zlength (s :: p)) with (zlength p + 1) by (unfold zlength; cbn [length]; lia).
+    pose proof (zlength_nonneg p). rewrite p2_succ by lia.
+    rewrite Z.div_div by (pose proof (p2_pos (zlength p)); lia). reflexivity.
+Qed.
+
+Lemma fold_up_low : forall p j a x, fold_up (j + 2 ^ zlength p * a) x p = fold_up j x p.
+Proof.
+  induction p as [|s p IH]; intros j a x; [reflexivity|].
+  cbn [fold_up].
+  replace (zlength (s :: p)) with (zlength p + 1) by (unfold zlength; cbn [length]; lia).
+  pose proof (zlength_nonneg p). rewrite p2_succ by lia.
+  replace (j + 2 * 2 ^ zlength p * a) with (j + 2 * (2 ^ zlength p * a)) by lia.
+  rewrite Z.even_add_mul_2.
+  replace ((j + 2 * (2 ^ zlength p * a)) / 2) with (j / 2 + 2 ^ zlength p * a) by lia.
+  apply IH.
+Qed.
+
+Lemma tree_path_length (h : nat) : forall c j, zlength (tree_path h c j) = Z.of_nat h.
+Proof.
+  induction h as [|h IH]; intros c j; [reflexivity|].
+  cbn [tree_path]. destruct (j <? 2 ^ Z.of_nat h); rewrite zlength_app, IH; unfold zlength; cbn [length]; lia.
+Qed.
+
+Lemma root_upd_0 c x : zlength c = 1 -> root 0 (upd c 0 x) = x.
+Proof. intros Hc. destruct c as [|y c]; [discriminate|]. reflexivity. Qed.
+
+Lemma fold_tree (h : nat) : forall c j x, zlength c = 2 ^ Z.of_nat h -> 0 <= j < 2 ^ Z.of_nat h ->
+  fold_up j x (tree_path h c j) = root h (upd c j x).
+Proof.
+  induction h as [|h IH]; intros c j x Hc Hj.
+  - change (2 ^ Z.of_nat 0) with 1 in *. assert (j = 0) by lia. subst. cbn [tree_path fold_up].
+    symmetry. apply root_upd_0. exact Hc.
+  - rewrite p2_S in *. pose proof (p2_nat_pos h) as Hp.
+    cbn [tree_path root].
+    destruct (Z.ltb_spec j (2 ^ Z.of_nat h)).
+    + rewrite fold_up_app. rewrite tree_path_length.
+      rewrite Z.div_small by lia. cbn [fold_up]. change (Z.even 0) with true. cbv iota.
+      rewrite IH by (try rewrite zlength_firstn; lia).
+      rewrite upd_firstn_lt, upd_skipn_lt by lia. reflexivity.
+    + rewrite fold_up_app. rewrite tree_path_length.
+      replace (j / 2 ^ Z.of_nat h) with 1 by nia.
+      cbn [fold_up]. change (Z.even 1) with false. cbv iota.
+      replace j with ((j - 2 ^ Z.of_nat h) + 2 ^ zlength (tree_path h (skipn (pw h) c) (j - 2 ^ Z.of_nat h)) * 1) at 1
+        by (rewrite tree_path_length; lia).
+      rewrite fold_up_low.
+      rewrite IH by (try rewrite zlength_skipn; lia).
+      rewrite upd_firstn_ge, upd_skipn_ge by lia. reflexivity.
+Qed.
+
+Lemma fold_mt_spec : forall p j x, 0 <= j < 2 ^ zlength p ->
+  fold_mt D H (2 ^ zlength p + j) x p = Some (fold_up j x p).
+Proof.
+  induction p as [|s p IH]; intros j x Hj.
+  - change (zlength (@nil D)) with 0 in *. change (2 ^ 0) with 1 in *. assert (j = 0) by lia. subst. reflexivity.
+  - replace (zlength (s :: p)) with (zlength p + 1) in * by (unfold zlength; cbn [length]; lia).
+    pose proof (zlength_nonneg p). rewrite p2_succ in * by lia. pose proof (p2_pos (zlength p) ltac:(lia)).
+    cbn [fold_mt fold_up].
+    destruct (Z.eqb_spec (2 * 2 ^ zlength p + j) 1); [lia|].
+    replace ((2 * 2 ^ zlength p + j) / 2) with (2 ^ zlength p + j / 2) by lia.
+    replace ((2 * 2 ^ zlength p + j) mod 2) with (j mod 2) by lia.
+    rewrite Zmod_even.
+    rewrite IH by lia.
+    destruct (Z.even j); reflexivity.
+Qed.
+
+End Fold.
+
+(* ------------------------------------------------------------------------------------------ mutation / verification *)
+Lemma zlen_zlength {A : Type} (l : list A) : zlen l = zlength l.
+Proof. reflexivity. Qed.
+
+Lemma set_nth_S {A : Type} (y : A) l n x :
+  set_nth (y :: l) (S n) x = match set_nth l n x with Some r => Some (y :: r) | None => None end.
+Proof. reflexivity. Qed.
+
+Section Mutate.
+Variable D : Type.
+Variable H : D -> D -> D.
+Variable deq : D -> D -> bool.
+Variable dflt : D.
+
+Notation root := (root D H dflt).
+Notation tree_path := (tree_path D H dflt).
+Notation peaks_at := (peaks_at D H dflt).
+Notation path_at := (path_at D H dflt).
+Notation fold_up := (fold_up D H).
+
+Lemma peaks_at_length (k : nat) : forall ls, zlength ls < 2 ^ Z.of_nat k ->
+  zlength (peaks_at k ls) = popcount_at k (zlength ls).
+Proof.
+  induction k as [|k IH]; intros ls Hl; [reflexivity|].
+  rewrite p2_S in Hl. cbn [peaks_at popcount_at]. cbv zeta.
+  destruct (Z.leb_spec (2 ^ Z.of_nat k) (zlength ls)).
+  - replace (zlength (root k (firstn (pw k) ls) :: peaks_at k (skipn (pw k) ls)))
+      with (1 + zlength (peaks_at k (skipn (pw k) ls))) by (unfold zlength; cbn [length]; lia).
+    rewrite IH by (rewrite zlength_skipn; lia). rewrite zlength_skipn by lia. reflexivity.
+  - apply IH. lia.
+Qed.
+
+(* the path of leaf i has the height of its tree as length; hashing any leaf value d up that path and
+   putting the result at the tree's peak position gives the peaks of the list with leaf i replaced by d *)
+Lemma mutate_at (k : nat) : forall ls i d, 0 <= i < zlength ls -> zlength ls < 2 ^ Z.of_nat k ->
+  let '(pk, h, j) := locate_at k (zlength ls) i in
+  zlength (path_at k ls i) = h /\
+  set_nth (peaks_at k ls) (Z.to_nat pk) (fold_up j d (path_at k ls i)) = Some (peaks_at k (upd ls i d)).
+Proof.
+  induction k as [|k IH]; intros ls i d Hi Hl.
+  - change (2 ^ Z.of_nat 0) with 1 in Hl. lia.
+  - rewrite p2_S in Hl. pose proof (p2_nat_pos k) as Hp.
+    cbn [locate_at peaks_at path_at]. cbv zeta. rewrite zlength_upd.
+    destruct (Z.leb_spec (2 ^ Z.of_nat k) (zlength ls)).
+    + destruct (Z.ltb_spec i (2 ^ Z.of_nat k)).
+      * split; [apply tree_path_length|].
+        cbn [Z.to_nat set_nth].
+        rewrite fold_tree by (try rewrite zlength_firstn; lia).
+        rewrite upd_firstn_lt, upd_skipn_lt by lia. reflexivity.
+      * specialize (IH (skipn (pw k) ls) (i - 2 ^ Z.of_nat k) d).
+        rewrite zlength_skipn in IH by lia.
+        specialize (IH ltac:(lia) ltac:(lia)).
+        pose proof (locate_at_bounds k (zlength ls - 2 ^ Z.of_nat k) (i - 2 ^ Z.of_nat k) ltac:(lia) ltac:(lia)) as Hb.
+        destruct (locate_at k (zlength ls - 2 ^ Z.of_nat k) (i - 2 ^ Z.of_nat k)) as [[pk h] j].
+        destruct IH as [IH1 IH2]. split; [exact IH1|].
+        replace (Z.to_nat (pk + 1)) with (S (Z.to_nat pk)) by lia.
+        rewrite set_nth_S. rewrite IH2.
+        rewrite upd_firstn_ge, upd_skipn_ge by lia. reflexivity.
+    + specialize (IH ls i d Hi ltac:(lia)).
+      destruct (locate_at k (zlength ls) i) as [[pk h] j]. exact IH.
+Qed.
+
+Lemma set_nth_same {A : Type} : forall (l : list A) n x r, set_nth l n x = Some r -> forall d, nth n r d = x.
+Proof.
+  induction l as [|y l IH]; intros n x r Hs d; [destruct n; discriminate|].
+  destruct n as [|n]; cbn [set_nth] in Hs.
+  - inversion Hs; subst. reflexivity.
+  - destruct (set_nth l n x) eqn:E; [|discriminate]. inversion Hs; subst. cbn [nth]. eapply IH. exact E.
+Qed.
+
+Lemma upd_nat_same {A : Type} : forall (l : list A) n d, upd_nat l n (nth n l d) = l.
+Proof.
+  induction l as [|y l IH]; intros [|n] d; cbn [upd_nat nth]; try reflexivity. rewrite IH. reflexivity.
+Qed.
+
+End Mutate.
+
+Section MutateTop.
+Variable D : Type.
+Variable H : D -> D -> D.
+Variable deq : D -> D -> bool.
+Variable dflt : D.
+
+Lemma popcount_at_le (k : nat) : forall n, popcount_at k n <= Z.of_nat k.
+Proof.
+  induction k as [|k IH]; intros n; cbn [popcount_at]; [lia|]. cbv zeta.
+  destruct (_ <=? _); [specialize (IH (n - 2 ^ Z.of_nat k))|specialize (IH n)]; lia.
+Qed.
+Lemma num_peaks_le n : num_peaks n <= 64.
+Proof. rewrite num_peaks_at. exact (popcount_at_le 64 n). Qed.
+
+Lemma peaks_spec_length ls : zlength ls < 2 ^ 64 -> zlength (peaks_spec D H dflt ls) = num_peaks (zlength ls).
+Proof. intros Hl. rewrite num_peaks_at. unfold peaks_spec. apply (peaks_at_length D H deq dflt). exact Hl. Qed.
+
+Lemma mutate_top ls i d : 0 <= i < zlength ls -> zlength ls < 2 ^ 64 ->
+  let '(pk, h, j) := locate (zlength ls) i in
+  zlength (path D H dflt ls i) = h /\
+  set_nth (peaks_spec D H dflt ls) (Z.to_nat pk) (fold_up D H j d (path D H dflt ls i)) =
+  Some (peaks_spec D H dflt (upd ls i d)).
+Proof. intros Hi Hl. rewrite locate_at64. unfold path, peaks_spec. apply (mutate_at D H deq dflt); assumption. Qed.
+
+Theorem mutate_spec ls i d : 0 <= i < zlength ls -> zlength ls < 2 ^ 64 ->
+  calculate_new_peaks_from_leaf_mutation D H (peaks_spec D H dflt ls) (zlength ls) d i (path D H dflt ls i) =
+  Some (peaks_spec D H dflt (upd ls i d)).
+Proof.
+  intros Hi Hl. unfold calculate_new_peaks_from_leaf_mutation.
+  rewrite li_mt_pk_spec by lia.
+  pose proof (mutate_top ls i d Hi Hl) as Hm.
+  pose proof (locate_bounds (zlength ls) i Hi Hl) as Hb.
+  destruct (locate (zlength ls) i) as [[pk h] j]. cbn [obind].
+  destruct Hm as [Hlen Hset]. destruct Hb as (Hpk & Hh & Hj).
+  rewrite <- Hlen. rewrite fold_mt_spec by (rewrite Hlen; exact Hj). cbn [obind].
+  exact Hset.
+Qed.
+
+(* membership verification decides exactly its specification; it never panics *)
+Theorem mp_verify_iff ap i leaf peaks n : 0 <= i -> 0 <= n < 2 ^ 64 -> zlen peaks < 2 ^ 32 ->
+  mp_verify D H deq ap i leaf peaks n = Some (mp_verify_spec D H deq dflt ap i leaf peaks n).
+Proof.
+  intros Hi Hn Hlp. unfold mp_verify, mp_verify_spec.
+  destruct (Z.leb_spec 0 i); [|lia]. cbn [andb].
+  destruct (Z.leb_spec n i) as [Hge|Hlt].
+  - destruct (Z.ltb_spec i n); [lia|]. reflexivity.
+  - destruct (Z.ltb_spec i n); [|lia]. cbn [andb].
+    rewrite li_mt_pk_spec by lia.
+    pose proof (locate_bounds n i ltac:(lia) ltac:(lia)) as Hb.
+    destruct (locate n i) as [[pk h] j]. cbn [obind]. destruct Hb as (Hpk & Hh & Hj).
+    rewrite (len_u32_some peaks Hlp). cbn [obind].
+    rewrite (num_peaks_spec n Hn). change (zlength peaks) with (zlen peaks).
+    rewrite (Z.eqb_sym (zlen peaks)).
+    destruct (Z.eqb_spec (num_peaks n) (zlen peaks)) as [Ep|]; [|reflexivity]. cbn [negb andb].
+    replace (Z.log2 (2 ^ h + j)) with h.
+    2:{ symmetry. apply Z.log2_unique; [lia|]. rewrite Z.pow_succ_r by lia. lia. }
+    change (zlength ap) with (zlen ap). rewrite (Z.eqb_sym (zlen ap)).
+    destruct (Z.eqb_spec h (zlen ap)) as [Eh|]; [|reflexivity]. cbn [negb andb].
+    subst h. change (zlen ap) with (zlength ap) in *.
+    rewrite fold_mt_spec by exact Hj. cbn [obind].
+    rewrite (nth_error_nth' peaks dflt) by (unfold zlen in Ep; lia). cbn [obind]. reflexivity.
+Qed.
+
+Theorem mp_verify_total ap i leaf peaks n : 0 <= i -> 0 <= n < 2 ^ 64 -> zlen peaks < 2 ^ 32 ->
+  mp_verify D H deq ap i leaf peaks n <> None.
+Proof. intros. rewrite mp_verify_iff by assumption. discriminate. Qed.
+
+Hypothesis deq_refl : forall x, deq x x = true.
+
+(* the authentication path of the specification verifies *)
+Theorem path_verifies ls i : 0 <= i < zlength ls -> zlength ls < 2 ^ 64 ->
+  mp_verify D H deq (path D H dflt ls i) i (nth (Z.to_nat i) ls dflt) (peaks_spec D H dflt ls) (zlength ls) = Some true.
+Proof.
+  intros Hi Hl64.
+  pose proof (peaks_spec_length ls Hl64) as Hpl.
+  pose proof (locate_bounds (zlength ls) i Hi Hl64) as Hb.
+  rewrite mp_verify_iff; try lia.
+  2:{ rewrite zlen_zlength. rewrite Hpl.
+      pose proof (num_peaks_le (zlength ls)). change (2 ^ 32) with 4294967296. lia. }
+  f_equal. unfold mp_verify_spec.
+  pose proof (mutate_top ls i (nth (Z.to_nat i) ls dflt) Hi Hl64) as Hm.
+  destruct (locate (zlength ls) i) as [[pk h] j]. destruct Hm as [Hlen Hset]. destruct Hb as (Hpk & Hh & Hj).
+  destruct (Z.leb_spec 0 i); [|lia]. destruct (Z.ltb_spec i (zlength ls)); [|lia].
+  rewrite Hpl, Z.eqb_refl, Hlen, Z.eqb_refl. cbn [andb].
+  unfold upd in Hset. rewrite upd_nat_same in Hset.
+  rewrite (set_nth_same _ _ _ _ Hset dflt). apply deq_refl.
+Qed.
+
+End MutateTop.
